@@ -189,7 +189,13 @@ func H08Exclusion() {
 	var res [2]*benchfmt.Result
 	for i := range st {
 		s := &st[i]
-		s.nm, s.a, s.b = vndByte("nm"), vndByte("a"), vndByte("b")
+		s.nm = vndByte("nm")
+		if vndParam("set") >= 5 {
+			// these sets name no configuration key: the file configuration is the same concrete one
+			s.a, s.b = 'x', 0
+		} else {
+			s.a, s.b = vndByte("a"), vndByte("b")
+		}
 		vndAssume(h08NameByte(s.nm))
 		if vndBool("hask") {
 			s.k = vndByte("k")
